@@ -32,14 +32,15 @@ from harness.common import Model
 PID = "C05"
 TRANSLATORS = ["T-verdict", "T-solvedispatch", "T-unsatcore", "T-coreappend"]
 
-# Genuine defects of halmos found by this check (see the final report / DESIGN 6, F8).
-KNOWN = common.known_for("C05")  # entries live in /verif/known_findings.json
+# Genuine defects of halmos found by this check: F8 / F8b (an exception of the synchronous stuck-path solve left run_test),
+# repaired by e923044; the signatures are still computed so that a regression is reported as the same failing input.
+KNOWN = common.known_for("C05")  # entries live in /verif/known_findings.json (none at present)
 
 PARTIAL = ("Thread timing is replaced by forced orders (per-query delays, one stale read of the shutdown flag); CPython's "
            "ThreadPoolExecutor guarantee that done-callbacks have run when shutdown(wait=True) returns is assumed. A solver kill "
-           "during the synchronous stuck-path solve and a Popen failure there are not separate model steps (the first can only "
-           "happen after a valid counterexample was recorded, where the verdict is FAIL whatever the stuck count; the second is the "
-           "same uncaught-exception mechanism as the recorded finding). --cache-solver: the order in which worker threads consult the "
+           "during the synchronous stuck-path solve is not a separate model step (it can only happen after a valid counterexample "
+           "was recorded, where the verdict is FAIL whatever the stuck count); a Popen failure / unparsable model there is the "
+           "EvMainRaise step (handled by `except Exception`: from_error output). --cache-solver: the order in which worker threads consult the "
            "shared core list is forced (one solver thread: strictly in submission order; default threads + delays: all queries started "
            "first); otherwise the implementation's verdict must be among the model's results over both families of schedules. A model "
            "refinement (second solver call) together with the cache is covered at function level (X3) but not end to end.")
@@ -372,7 +373,7 @@ def gen_cases(tier, r):
     cases.append(mk(["success", "panic", "revert", "failflag"], {1: "sat", 3: "sat"}, ee=True, cache=True))
     cases.append(mk(["success", "panic"], {1: "unsat"}, ee=True))
     cases.append(mk(["stuck", "panic", "success"], {0: "sat", 1: "sat"}, ee=True))
-    # a stuck path whose solver answer makes solve_low_level raise (unparsable model), next to a real counterexample (F8b)
+    # a stuck path whose solver answer makes solve_low_level raise (unparsable model), next to a real counterexample (formerly F8b)
     cases.append(mk(["panic", "stuck", "success"], {0: "sat", 1: "sat_badmodel"}))
     cases.append(mk(["stuck", "success"], {0: "sat_badmodel"}))
     # --cache-solver: the shared list of unsat cores makes the answer to a query depend on which callbacks ran
@@ -400,7 +401,7 @@ def gen_cases(tier, r):
             cases.append(mk(["panic", "failflag", "success"], {0: a, 1: b}, cache=True, threads=1))
             cases.append(mk(["failflag", "panic", "success"], {0: b, 1: a}, cache=True, threads=1))
             cases.append(mk(["panic", "failflag", "success"], {0: a, 1: b}, cache=True, delays={"0": 0.7, "1": 0}))
-    # forced schedule: stale read of the shutdown flag right before a stuck path (F8)
+    # forced schedule: stale read of the shutdown flag right before a stuck path (formerly F8: ShutdownError left run_test)
     cases.append(mk(["panic", "stuck", "success"], {0: "sat", 1: "sat"}, ee=True, stale=1))
     if tier != "quick":
         cases.append(mk(["panic", "success", "stuck"], {0: "sat", 2: "unsat"}, ee=True, stale=2))
@@ -910,7 +911,7 @@ def run(rep, tier):
         short = {"paths": paths, "replies": c["replies"], "delays": c.get("delays"), "refined": c.get("refined"), "early_exit": bool(c.get("ee")),
                  "cache_solver": bool(c.get("cache")), "solver_threads": c.get("threads"), "stale_read": c.get("stale"), "implementation": obs, "process_exit": res["rc"],
                  "json_exit": (res["json"] or {}).get("exitcode"), "log_tail": res["log_tail"][-700:]}
-        # a stuck path whose synchronous solve raises (not a ShutdownError): outside the Coq model, see PARTIAL
+        # a stuck path whose synchronous solve raises (not a ShutdownError): the model's EvMainRaise step
         stuck_raises = any(k == "stuck" and c["replies"][str(j)] == "sat_badmodel" for j, k in enumerate(paths))
         # spec vs implementation
         ok_label = obs["label"] == want
